@@ -33,7 +33,7 @@ CONFIG = dict(
                        "mpsc_chain_invariant", "mpsc_delivers_swap_order", "mpsc_per_producer_fifo", "mpsc_pop_blocked_only_by_unlinked",
                        "mpsc_pop_delivers_oldest", "mpsc_quiescent_all_visible", "mpsc_link_reveals",
                        "mailbox_pushS_is_swap_link", "mailbox_popS_is_list_pop", "mailbox_sysqueue_invariant", "mailbox_no_lost_wakeup_split_push",
-                       "sched_channel_bounded", "sched_exactly_once_in_order", "sched_idle_all_delivered", "sched_idle_delivered_eq_posted", "sched_pending_has_run", "sched_blocked_only_when_full"],
+                       "sched_channel_bounded", "sched_exactly_once_in_order", "sched_idle_all_delivered", "sched_idle_delivered_eq_posted", "sched_pending_has_run", "sched_blocked_only_when_full", "pending_work_can_progress"],
     # hook H2 (vy("mp.swap") / vy("mp.link") / vy("mp.pop") in actorex/queue/mpsc) is committed in /repo as 3b9fc55
     harness_pkg="./c09",
     mode="diff",
